@@ -85,12 +85,14 @@ SMA_CAP = 1.0e4         # a run whose sma passes this is cut as well (sampling t
 CALL_CAP = 250          # fit_isophote calls per fit_image run; the model's fuel is 400 per loop
 
 
-def run_fit_image(image, geom_args, kwargs, script=None, minit=10, record_steps=False, gfix=None, gmode=None):
+def run_fit_image(image, geom_args, kwargs, script=None, minit=10, record_steps=False, gfix=None, gmode=None,
+                  second=None):
     """Run the real Ellipse.fit_image.  `script` = list of (stop_code, valid): the
     EllipseFitter is replaced by an oracle that returns these outcomes in turn
     (everything else — fit_image, fit_isophote, _non_iterative, _fix_last_isophote,
     EllipseSample, Isophote, IsophoteList.sort — is the real code).  With script=None the
-    real fitter runs and its outcomes are recorded.
+    real fitter runs and its outcomes are recorded.  `second` = (kwargs, script) of a SECOND fit_image call on
+    the same Ellipse object (its observation is returned under 'second').
     Returns dict(kind, isos, calls, stream, steps, geometry)."""
     import photutils.isophote.ellipse as ell
     import photutils.isophote.fitter as fit
@@ -182,33 +184,48 @@ def run_fit_image(image, geom_args, kwargs, script=None, minit=10, record_steps=
         fit.fit_first_and_second_harmonics = rec_harm
         fit._CORRECTORS[:] = [RecCorr(k, c) for k, c in enumerate(real_corr)]
         fit.EllipseFitter._check_conditions = staticmethod(rec_check)
-    kind, isos, isolist, exc, geoms = 0, [], None, None, []
+    ellipse = RecEllipse(image, geometry)
+
+    def one_call(kwargs_, script_):
+        nonlocal calls, stream, fixflags, pending
+        calls, stream, fixflags = [], [], []
+        pending = list(script_) if script_ is not None else None
+        kind, isos, isolist, exc, geoms = 0, [], None, None, []
+        try:
+            with warnings.catch_warnings():
+                warnings.simplefilter('ignore')
+                with np.errstate(all='ignore'):
+                    isolist = ellipse.fit_image(minit=minit, **kwargs_)
+            isos = [(float(i.sma), int(i.stop_code), bool(i.valid)) for i in isolist]
+            if pending is not None:
+                geoms = [(float(i.sample.geometry.x0) - TOKEN_X0) * TOKEN_SCALE for i in isolist]
+                if any(g != int(g) for g in geoms):
+                    raise RuntimeError(f'geometry token not recovered exactly: {geoms}')
+                geoms = [int(g) for g in geoms]
+            else:
+                geoms = [-1] * len(isos)             # real fitter: provenance checked by fixed_geometry_oracle
+            # ... and the flags every returned isophote carries (non-iterative ones never see a fitter)
+            fixflags += [('isophote', float(i.sma), tuple(bool(v) for v in i.sample.geometry.fix))
+                         for i in isolist if i.sma > 0]
+        except IndexError:
+            kind = 1
+        except _Starved:
+            kind = 2
+        except _CallCap:
+            kind = 3
+        except RuntimeError:
+            raise
+        except Exception as e:                       # anything else escaping from fit_image
+            import traceback
+            tb = traceback.extract_tb(e.__traceback__)[-1]
+            kind, exc = 4, f'{type(e).__name__}: {e} ({tb.filename.split("/")[-1]}:{tb.lineno} {tb.name})'
+        return dict(kind=kind, isos=isos, geoms=geoms, calls=calls, stream=stream, exc=exc, fixflags=fixflags,
+                    isolist=isolist, untouched=bool(np.array_equal(image, img0)))
+
     try:
-        with warnings.catch_warnings():
-            warnings.simplefilter('ignore')
-            with np.errstate(all='ignore'):
-                isolist = RecEllipse(image, geometry).fit_image(minit=minit, **kwargs)
-        isos = [(float(i.sma), int(i.stop_code), bool(i.valid)) for i in isolist]
-        if pending is not None:
-            geoms = [(float(i.sample.geometry.x0) - TOKEN_X0) * TOKEN_SCALE for i in isolist]
-            if any(g != int(g) for g in geoms):
-                raise RuntimeError(f'geometry token not recovered exactly: {geoms}')
-            geoms = [int(g) for g in geoms]
-        else:
-            geoms = [-1] * len(isos)                 # real fitter: provenance checked by copied_geometry_oracle
-        # ... and the flags every returned isophote carries (non-iterative ones never see a fitter)
-        fixflags += [('isophote', float(i.sma), tuple(bool(v) for v in i.sample.geometry.fix))
-                     for i in isolist if i.sma > 0]
-    except IndexError:
-        kind = 1
-    except _Starved:
-        kind = 2
-    except _CallCap:
-        kind = 3
-    except Exception as e:                       # anything else escaping from fit_image
-        import traceback
-        tb = traceback.extract_tb(e.__traceback__)[-1]
-        kind, exc = 4, f'{type(e).__name__}: {e} ({tb.filename.split("/")[-1]}:{tb.lineno} {tb.name})'
+        first = one_call(kwargs, script)
+        if second is not None:
+            first['second'] = one_call(*second)
     finally:
         ell.EllipseFitter = real_fitter
         fit.fit_first_and_second_harmonics = real_harm
@@ -217,14 +234,14 @@ def run_fit_image(image, geom_args, kwargs, script=None, minit=10, record_steps=
     steps = [s for s in steps if 'gn' in s]        # a step whose update() raised has no 'gn'
     for s in steps:
         s.pop('new')
-    return dict(kind=kind, isos=isos, geoms=geoms, calls=calls, stream=stream, steps=steps, exc=exc, fixflags=fixflags,
-                isolist=isolist, untouched=bool(np.array_equal(image, img0)), geometry=geometry)
+    first.update(steps=steps, geometry=geometry)
+    return first
 
 
 # --------------------------------------------------------------------------
 # schedule cases
 # --------------------------------------------------------------------------
-def gen_sched(rng):
+def gen_sched(rng, allow_second=True):
     """Parameters of one scripted fit_image run (control skeleton under an adversarial
     oracle stream)."""
     lin = rng.random() < 0.4
@@ -298,9 +315,22 @@ def gen_sched(rng):
     if rng.random() < 0.35:
         gfix = tuple(rng.random() < 0.45 for _ in range(3))
         gmode = rng.choice(['ctor', 'attr'])
-    return dict(lin=lin, step=step, sma0=(sma0 if use_sma0 else rng.choice([None, 0.0])), gsma=gsma,
-                minsma=minsma, maxsma=maxsma, maxrit=maxrit, stream=stream, fixes=fixes,
-                lin_arg=rng.random() < 0.7, gfix=gfix, gmode=gmode)
+    p = dict(lin=lin, step=step, sma0=(sma0 if use_sma0 else rng.choice([None, 0.0])), gsma=gsma,
+             minsma=minsma, maxsma=maxsma, maxrit=maxrit, stream=stream, fixes=fixes,
+             lin_arg=rng.random() < 0.7, gfix=gfix, gmode=gmode, second=None)
+    # a SECOND fit_image call on the same Ellipse object, with other arguments: its result must satisfy the
+    # property on its own (nothing of the first call's list, schedule, minsma/maxsma may leak into it).  What
+    # the first call documents to override "for good" (geometry.fix, geometry.linear_growth) is carried over.
+    if allow_second and rng.random() < 0.3:
+        q = gen_sched(rng, allow_second=False)
+        q['gsma'] = gsma                                   # the same geometry object
+        if not q['lin_arg']:
+            q['lin'] = lin                                 # linear=None: geometry.linear_growth as left by call 1
+        # (with all three keywords set the first call returns before it touches the geometry)
+        carried = tuple(p.get('gfix') or NOFIX) if all(fixes) else eff_fixes(p)
+        q['gfix'], q['gmode'] = (carried if any(carried) else None), ('carried-over' if any(carried) else None)
+        p['second'] = q
+    return p
 
 
 NOFIX = (False, False, False)
@@ -326,7 +356,14 @@ def run_sched(p):
     geom_args = (24.0, 24.0, p['gsma'], 0.2, 0.5, 0.1, p['lin'])
     kw = dict(sma0=p['sma0'], minsma=p['minsma'], maxsma=p['maxsma'], step=p['step'], linear=lin_arg,
               maxrit=p['maxrit'], fix_center=p['fixes'][0], fix_pa=p['fixes'][1], fix_eps=p['fixes'][2])
-    return run_fit_image(script_image(), geom_args, kw, script=p['stream'], gfix=p.get('gfix'), gmode=p.get('gmode'))
+    second = None
+    if p.get('second'):
+        q = p['second']
+        second = (dict(sma0=q['sma0'], minsma=q['minsma'], maxsma=q['maxsma'], step=q['step'],
+                       linear=(q['lin'] if q['lin_arg'] else None), maxrit=q['maxrit'],
+                       fix_center=q['fixes'][0], fix_pa=q['fixes'][1], fix_eps=q['fixes'][2]), q['stream'])
+    return run_fit_image(script_image(), geom_args, kw, script=p['stream'], gfix=p.get('gfix'), gmode=p.get('gmode'),
+                         second=second)
 
 
 def sched_term(p, obs, stream, repaired=True):
@@ -378,7 +415,8 @@ def describe_sched(p):
     return {'mode': 'scripted', 'lin': p['lin'], 'lin_arg': p['lin_arg'], 'step': p['step'], 'sma0': p['sma0'],
             'gsma': p['gsma'], 'minsma': p['minsma'], 'maxsma': p['maxsma'], 'maxrit': p['maxrit'],
             'stream': [list(x) for x in p['stream']], 'fixes': list(p['fixes']),
-            'gfix': list(p['gfix']) if p.get('gfix') else None, 'gmode': p.get('gmode')}
+            'gfix': list(p['gfix']) if p.get('gfix') else None, 'gmode': p.get('gmode'),
+            'second': describe_sched(p['second']) if p.get('second') else None}
 
 
 # --------------------------------------------------------------------------
@@ -388,12 +426,15 @@ def gen_real(rng, thorough=False, force=None):
     """One real fit.  `force` selects a structured family that must occur in every run:
     'maxrit' / 'offframe' (nothing fixed, first guess away from the truth, outward pass ending non-iteratively
     beyond maxrit / beyond the frame: stop-code-4 isophotes inside the model-image region),
+    'large' (a 232-256 pixel frame, fitted region out to ~100 pixels, for the model image),
     'pa0' (true PA exactly 0 or pi: the fitted PAs straddle the seam, for the model image),
     'wide' / 'tall' (frame aspect 1:2-1:3 with the galaxy centre beyond the shorter dimension along the
     long axis, nothing fixed, bilinear: for the model image), 'fix-offframe' / 'fix-maxrit' / 'fix-none'
     (a fix_* request whose value differs from the truth, with an outward pass that ends non-iteratively
     beyond the frame / beyond maxrit / with maxsma=None)."""
     size = rng.choice([64, 72, 80] + ([96, 112] if thorough else []))
+    if force == 'large':
+        size = rng.choice([232, 256])               # fitted region reaching 80-110 pixels
     shape = rng.random()
     if force in ('wide', 'tall') or (force is None and shape > 0.6):
         # frame aspect ratios from 1:3 to 3:1
@@ -403,7 +444,7 @@ def gen_real(rng, thorough=False, force=None):
     else:
         ny, nx = size, size + rng.choice([0, 0, 8, -8])
     # centre anywhere well inside the frame (at least 3/8 of the short side from every edge)
-    m = 0.375 * size
+    m = 0.375 * size if force != 'large' else 0.46 * size
     x0 = rng.uniform(m, nx - 1 - m)
     y0 = rng.uniform(m, ny - 1 - m)
     if force == 'wide':
@@ -428,6 +469,10 @@ def gen_real(rng, thorough=False, force=None):
         pa = rng.choice([0.0, math.pi])             # major axis along the image x axis: fitted PAs straddle the 0/pi seam
     if force in ('maxrit', 'offframe'):
         scale = rng.uniform(size / 6, size / 5)     # the comparable region reaches beyond maxrit
+    if force == 'large':
+        # smooth, well-resolved law; few, widely spaced isophotes (the fit is the expensive part)
+        law, scale = rng.choice(['sersic1', 'gauss']), rng.uniform(size / 7, size / 5.5)
+        lin, step, sma0, minsma = False, 0.25, 20.0, 10.0
     if force in ('wide', 'tall', 'pa0', 'maxrit', 'offframe'):
         lin, step, minsma = False, 0.1, 0.0         # a long list, so that the model image has a region to test
     # outward pass: unbounded (ends on failures), bounded inside the frame, bounded BEYOND the frame (fits
@@ -436,11 +481,11 @@ def gen_real(rng, thorough=False, force=None):
     out = rng.choice(['none', 'in', 'in', 'in', 'off', 'maxrit'])
     out = {'fix-offframe': 'off', 'fix-maxrit': 'maxrit', 'fix-none': 'none', 'wide': 'in', 'tall': 'in',
            'chan-ctor': 'in', 'chan-attr': 'off', 'chan-disagree': 'in', 'pa0': 'in', 'maxrit': 'maxrit',
-           'offframe': 'off'}.get(force, out)
+           'offframe': 'off', 'large': 'in'}.get(force, out)
     if out == 'none':
         maxsma = None
     elif out == 'in':
-        maxsma = rng.choice([size / 4, size / 3, size / 3.5])
+        maxsma = rng.choice([size / 4, size / 3, size / 3.5]) if force != 'large' else 0.42 * size
     elif out == 'off':
         maxsma = rng.choice([0.8, 1.0]) * size
     else:
@@ -448,7 +493,7 @@ def gen_real(rng, thorough=False, force=None):
     fixes = rng.choice([(False, False, False)] * 4 + [(True, False, False), (False, True, False),
                                                       (False, False, True), (True, True, False),
                                                       (False, True, True), (True, False, True)])
-    if force in ('wide', 'tall', 'pa0', 'maxrit', 'offframe'):
+    if force in ('wide', 'tall', 'pa0', 'maxrit', 'offframe', 'large'):
         fixes = (False, False, False)
     elif force is not None:
         fixes = rng.choice([(True, False, False), (False, True, False), (False, False, True),
@@ -540,7 +585,7 @@ def run_real(p, record_steps=True):
 
 
 # structured families generated in every run (see gen_real)
-FORCED_REAL = ['wide', 'tall', 'pa0', 'maxrit', 'offframe', 'fix-offframe', 'fix-maxrit', 'fix-none', 'chan-ctor', 'chan-attr', 'chan-disagree']
+FORCED_REAL = ['wide', 'tall', 'large', 'pa0', 'maxrit', 'offframe', 'fix-offframe', 'fix-maxrit', 'fix-none', 'chan-ctor', 'chan-attr', 'chan-disagree']
 
 # inputs that once exposed a defect; run first in every tier
 PINNED_REAL = [
@@ -571,6 +616,12 @@ PINNED_REAL = [
          minsma=2.0, maxsma=20.571428571428573, maxrit=None, integr='bilinear', lin_arg=True,
          fixes=(False, False, False), g=(30.79795173528395, 33.375465652199914, 0.13683576609473797,
                                          0.4151169456851164)),
+    # fixes/C20-6: maxsma beyond the frame: the outermost non-iterative isophote has no data (NaN intensity) and
+    # turns the whole build_ellipse_model image into NaN
+    dict(ny=64, nx=64, x0=32.50637649185829, y0=34.05223763100625, eps=0.3, pa=1.5707963267948966, law='gauss',
+         scale=12.567893575147425, lin=False, step=0.1, sma0=6.0, gsma=6.0, minsma=0.0, maxsma=64.0, maxrit=None,
+         integr='bilinear', lin_arg=True, fixes=(False, False, False),
+         g=(33.32557089033317, 35.03652990722335, 1.7171328384387714, 0.20714559121467405)),
 ]
 
 
@@ -578,7 +629,9 @@ MODEL_MEDIAN_TOL = 0.03      # observed on the repaired tree (quick seeds 0-2, t
 MODEL_P90_TOL = 0.07
 
 
-MODEL_COVERAGE_TOL = 0.99    # fraction of the region that the model fills (observed: 1.0)
+MODEL_PIX_ABS, MODEL_PIX_SLOPE = 0.03, 0.5    # worst-pixel bound: 3 % + half the change of the law over one pixel
+                                              # (observed worst pixel: <= 0.25 of this bound)
+MODEL_COVERAGE_TOL = 1.0     # EVERY pixel of the region must be filled by the model
 
 
 def model_residual(p, obs):
@@ -644,8 +697,75 @@ def model_residual(p, obs):
     region &= ~unsupported
     if region.sum() < 50:
         return None
-    inside = region & (model != 0)
-    return np.abs(model[inside] - img[inside]) / img[inside], float(inside.sum()) / float(region.sum())
+    model_residual.last_nonfinite = int((region & ~np.isfinite(model)).sum())
+    inside = region & (model != 0) & np.isfinite(model)
+    rel = np.abs(model[inside] - img[inside]) / img[inside]
+    # worst pixel, relative to the per-pixel bound MODEL_PIX_ABS + MODEL_PIX_SLOPE x (logarithmic slope of the true
+    # law per pixel along the minor axis): a model pixel is a bilinear-weighted mean of ellipse samples lying
+    # within one pixel of it, so it cannot differ from the image by more than the law changes over one pixel
+    model_residual.last_worst = float(np.max(rel / (MODEL_PIX_ABS + MODEL_PIX_SLOPE * slope[inside]))) if rel.size else 0.0
+    model_residual.last_unfilled = int((region & (model == 0)).sum())
+    return rel, float(inside.sum()) / float(region.sum())
+
+
+def gen_synth(rng):
+    """A large frame and an isophote list built (cheaply, no fit) by sampling the image along the TRUE ellipses
+    at geometrically spaced sma out to 90-125 pixels: build_ellipse_model of a list that describes the image
+    must reproduce it; this reaches the radii where the angular step of the model's ellipse scan is clamped."""
+    ny, nx = rng.choice([(200, 300), (300, 210), (260, 260), (230, 280)])
+    eps = rng.choice([0.1, 0.2, 0.3, 0.4, 0.5])
+    pa = rng.choice([0.0, math.pi / 2, rng.uniform(0, math.pi), rng.uniform(0, math.pi)])
+    x0 = rng.uniform(0.42 * nx, 0.58 * nx)
+    y0 = rng.uniform(0.42 * ny, 0.58 * ny)
+    law = rng.choice(['sersic1', 'gauss', 'sersic2'])
+    scale = rng.uniform(35.0, 50.0)
+    edge = min(x0, y0, nx - 1 - x0, ny - 1 - y0)
+    smas, a, ratio = [], rng.uniform(5.0, 7.0), rng.choice([1.12, 1.2, 1.25])
+    while a < edge - 3.0:
+        smas.append(a)
+        a *= ratio
+    return dict(mode='synth', ny=ny, nx=nx, x0=x0, y0=y0, eps=eps, pa=pa, law=law, scale=scale, smas=smas,
+                sma0=smas[0], gsma=smas[0], integr='bilinear', fixes=NOFIX)
+
+
+def run_synth(p):
+    from photutils.isophote.isophote import Isophote, IsophoteList
+    from photutils.isophote.sample import EllipseSample
+    img = galaxy(p['ny'], p['nx'], p['x0'], p['y0'], p['eps'], p['pa'], p['law'], p['scale'])
+    isos = []
+    with warnings.catch_warnings():
+        warnings.simplefilter('ignore')
+        for a in p['smas']:
+            smp = EllipseSample(img, a, x0=p['x0'], y0=p['y0'], astep=0.1, eps=p['eps'], position_angle=p['pa'])
+            smp.update()
+            isos.append(Isophote(smp, 0, True, 0))
+    il = IsophoteList(isos)
+    return dict(kind=0, image=img, isolist=il, isos=[(float(i.sma), 0, True) for i in il])
+
+
+def model_verdict(p, res):
+    """The clauses of the model-image test on one case; returns a list of (signature, message)."""
+    rel, coverage = res
+    out = []
+    if getattr(model_residual, 'last_nonfinite', 0):
+        out.append(('build_ellipse_model:non-finite', f'{model_residual.last_nonfinite} pixels of the model inside the '
+                    'fitted region are NaN/inf'))
+    if model_residual.last_unfilled:
+        out.append(('build_ellipse_model:coverage', f'{model_residual.last_unfilled} pixels ({100 * (1 - coverage):.2f} %) '
+                    f'inside the fitted region (ellipses entirely inside the {p["ny"]}x{p["nx"]} frame) are not '
+                    'filled by the model'))
+    if rel.size:
+        med, p90 = float(np.median(rel)), float(np.percentile(rel, 90))
+        if med > MODEL_MEDIAN_TOL or p90 > MODEL_P90_TOL:
+            out.append(('build_ellipse_model:residual', f'relative residual of the model image inside the fitted '
+                        f'region: median {med:.3f} (tol {MODEL_MEDIAN_TOL}), 90th percentile {p90:.3f} '
+                        f'(tol {MODEL_P90_TOL})'))
+        elif model_residual.last_worst > 1.0:
+            out.append(('build_ellipse_model:worst-pixel', f'a pixel inside the fitted region deviates from the image '
+                        f'by {model_residual.last_worst:.1f} x the per-pixel bound ({MODEL_PIX_ABS} + {MODEL_PIX_SLOPE} x '
+                        'logarithmic slope of the law per pixel along the minor axis); largest relative deviation '
+                        f'{float(rel.max()):.3f}'))
+    return out
 
 
 def angdiff(a, b):
@@ -892,7 +1012,7 @@ def run(ctx):
         'inward step, maxsma None/0/at sma0/above, maxrit, sma0 None/0, all-fixed); real: noise-free '
         'Sersic(n=1,2,4)/Gaussian galaxies (eps 0.05-0.8, any PA, off-centre), all integration modes, fix_* '
         'flags, with the real fitter recorded; polar: exact-lattice centres and points (centre, axes, '
-        'quadrants, negative/large PA); five pinned real inputs (one per repaired defect) run first; '
+        'quadrants, negative/large PA); six pinned real inputs (one per repaired defect) run first; '
         'non-trivial = at least one fit call; distinct = distinct parameters')
     ctx.assumptions += [
         'EllipseFitter.fit (harmonic least squares, gradients, convergence tests) is NOT modelled: it is the '
@@ -925,7 +1045,9 @@ def run(ctx):
         'build_ellipse_model reproduces the image inside the fitted region: spline numerics, tested only '
         '(support:model_image; frames of aspect 1:3 to 3:1 with the galaxy centred beyond the shorter dimension; '
         'pixels within reach of an isophote the fitter reports as not converged (stop code != 0) are left out - the '
-        'list does not describe the image there -; the remaining region of ellipses inside the frame must be filled to >= 99 %, median relative residual <= 3 %, 90th '
+        'list does not describe the image there -; in the remaining region of ellipses inside the frame (fitted lists '
+        'reaching ~100 pixels and lists built along the true ellipses out to 90-125 pixels included) NO pixel may be '
+        'unfilled or non-finite or deviate by more than 3 % + half the change of the law over one pixel, and median relative residual <= 3 %, 90th '
         'percentile <= 7 %)',
         'fixed parameters: proved of the fitter model for the whole iteration (fixed_params_kept; fixed eps for a '
         'start eps > 0); fix_geometry / non-iterative paths are tested only: on real fits every fix_* request (at '
@@ -949,41 +1071,49 @@ def run(ctx):
     for _ in range(n_script):
         p = gen_sched(ctx.rng)
         obs = run_sched(p)
-        if obs['kind'] == 4:
-            ctx.violation('Ellipse.fit_image:exception', f'fit_image raised {obs["exc"]}', describe_sched(p))
-            continue
-        # the oracle outcomes the run consumed are a prefix of the script
-        consumed = obs['stream']
-        if consumed != [tuple(x) for x in p['stream'][:len(consumed)]]:
-            raise RuntimeError('scripted stream was not consumed in order')
-        terms.append(sched_term(p, obs, p['stream']))
-        meta.append(('sched', p, obs))
-        ctx.count_case(describe_sched(p), len(obs['calls']) > 0)
-        ctx.stat('scripted', 'result:' + KINDS[obs['kind']])
-        ctx.stat('scripted', 'growth:' + ('linear' if p['lin'] else 'geometric'))
-        if obs['kind'] == 0:
-            ctx.stat('scripted', 'returned-empty' if not obs['isos'] else 'returned-nonempty')
-            codes = {c for _, c, _ in obs['isos']}
-            for c in sorted(codes):
-                ctx.stat('scripted-final-codes', str(c))
-        if any(ni for _, ni, _, _ in obs['calls']):
-            ctx.stat('scripted', 'non-iterative-mode-reached')
-        hyp = sched_hyps(p, p['stream'])
-        ctx.stat('scripted', 'theorem-premises-hold' if hyp else 'outside-premises')
-        if not obs['untouched']:
-            ctx.violation('Ellipse.fit_image:image-modified', 'fit_image modified the input image', describe_sched(p))
-        if hyp:
-            for sig, msg in sched_oracle(p, obs):
-                ctx.violation('Ellipse.fit_image:' + sig, msg, describe_sched(p))
-        if p.get('gfix'):
-            ctx.stat('scripted', 'request-channel:geometry-flags' + ('+keywords' if any(p['fixes']) else ''))
-        if obs['fixflags']:
-            terms.append(fix_term(p, obs))
-            meta.append(('fix', p, obs))
-        ff = fixflag_oracle(p, obs) if not all(p['fixes']) else []
-        if ff:
-            ctx.violation('Ellipse.fit_image:fix-flags-lost', f'{len(ff)} fitter calls / isophotes lost the '
-                          f'requested fix flags, e.g. {ff[0]}', describe_sched(p))
+        desc = describe_sched(p)
+        ctx.count_case(desc, len(obs['calls']) > 0)
+        two = [('first', p, obs)]
+        if p.get('second') and 'second' in obs:
+            p['second']['_whole'] = p
+            two.append(('second', p['second'], obs['second']))
+            ctx.stat('scripted', 'second-fit_image-call-on-the-same-Ellipse')
+        for which, pc, oc in two:
+            if oc['kind'] == 4:
+                ctx.violation('Ellipse.fit_image:exception', f'fit_image ({which} call) raised {oc["exc"]}', desc)
+                continue
+            # the oracle outcomes the run consumed are a prefix of the script
+            consumed = oc['stream']
+            if consumed != [tuple(x) for x in pc['stream'][:len(consumed)]]:
+                raise RuntimeError('scripted stream was not consumed in order')
+            terms.append(sched_term(pc, oc, pc['stream']))
+            meta.append(('sched', pc, oc))
+            ctx.stat('scripted', 'result:' + KINDS[oc['kind']])
+            ctx.stat('scripted', 'growth:' + ('linear' if pc['lin'] else 'geometric'))
+            if oc['kind'] == 0:
+                ctx.stat('scripted', 'returned-empty' if not oc['isos'] else 'returned-nonempty')
+                codes = {c for _, c, _ in oc['isos']}
+                for c in sorted(codes):
+                    ctx.stat('scripted-final-codes', str(c))
+            if any(ni for _, ni, _, _ in oc['calls']):
+                ctx.stat('scripted', 'non-iterative-mode-reached')
+            hyp = sched_hyps(pc, pc['stream'])
+            ctx.stat('scripted', 'theorem-premises-hold' if hyp else 'outside-premises')
+            if not oc['untouched']:
+                ctx.violation('Ellipse.fit_image:image-modified', 'fit_image modified the input image', desc)
+            if hyp:
+                for sig, msg in sched_oracle(pc, oc):
+                    ctx.violation('Ellipse.fit_image:' + sig, (msg if which == 'first' else
+                                  'second fit_image call on the same Ellipse: ' + msg), desc)
+            if pc.get('gfix'):
+                ctx.stat('scripted', 'request-channel:geometry-flags' + ('+keywords' if any(pc['fixes']) else ''))
+            if oc['fixflags']:
+                terms.append(fix_term(pc, oc))
+                meta.append(('fix', pc, oc))
+            ff = fixflag_oracle(pc, oc) if not all(pc['fixes']) else []
+            if ff:
+                ctx.violation('Ellipse.fit_image:fix-flags-lost', f'{len(ff)} fitter calls / isophotes ({which} call) '
+                              f'lost the requested fix flags, e.g. {ff[0]}', desc)
     ctx.sample({'scripted_case': describe_sched(meta[3][1]), 'impl': {k: meta[3][2][k] for k in ('kind', 'isos', 'calls')}})
 
     _t(ctx, 'scripted')
@@ -1138,11 +1268,21 @@ def run(ctx):
         return p['pa'] in (0.0, math.pi)
     def noniter(e):
         return any(c == 4 for _, c, _ in e[1]['isos'])
-    elig = ([e for e in elig if beyond(e[0])][:(3 if quick else 10)]
-            + [e for e in elig if seam(e[0]) and not beyond(e[0])][:(3 if quick else 10)]
-            + [e for e in elig if noniter(e) and not beyond(e[0]) and not seam(e[0])][:(3 if quick else 10)]
-            + [e for e in elig if not beyond(e[0]) and not seam(e[0]) and not noniter(e)][:(2 if quick else 10)])
-    for p, obs in elig:
+    elig = ([e for e in elig if max(e[0]['ny'], e[0]['nx']) >= 200][:(2 if quick else 8)]
+            + [e for e in elig if beyond(e[0]) and max(e[0]['ny'], e[0]['nx']) < 200][:(3 if quick else 10)]
+            + [e for e in elig if seam(e[0]) and not beyond(e[0]) and max(e[0]['ny'], e[0]['nx']) < 200][:(3 if quick else 10)]
+            + [e for e in elig if noniter(e) and not beyond(e[0]) and not seam(e[0]) and max(e[0]['ny'], e[0]['nx']) < 200][:(3 if quick else 10)]
+            + [e for e in elig if not beyond(e[0]) and not seam(e[0]) and not noniter(e) and max(e[0]['ny'], e[0]['nx']) < 200][:(2 if quick else 10)])
+    def large(p):
+        return max(p['ny'], p['nx']) >= 200
+    # lists built along the true ellipses on large frames (no fit), out to 90-125 pixels
+    synth = []
+    for _ in range(2 if quick else 8):
+        ps = gen_synth(ctx.rng)
+        synth.append((ps, run_synth(ps)))
+        ctx.count_case(ps, True)
+    for p, obs in elig + synth:
+        desc = p if p.get('mode') == 'synth' else describe_real(p)
         try:
             res = model_residual(p, obs)
         except Exception as e:                       # spline failures are numerics
@@ -1155,26 +1295,23 @@ def run(ctx):
             continue
         rel, coverage = res
         ctx.stat('model_image', 'pixels-compared', int(rel.size))
+        ctx.stat('model_image', 'list:' + ('built-along-the-true-ellipses' if p.get('mode') == 'synth' else 'fitted'))
         ctx.stat('model_image', 'centre-beyond-shorter-dimension' if beyond(p) else 'centre-within-shorter-dimension')
+        if large(p):
+            ctx.stat('model_image', 'region-reaching-beyond-60-pixels')
         if seam(p):
             ctx.stat('model_image', 'pa-on-the-0/pi-seam')
         if noniter((p, obs)):
             ctx.stat('model_image', 'list-with-non-iterative-isophotes')
         d = ctx.cov['correspondence'].setdefault('model_image', {})
         d['least_filled_fraction'] = min(d.get('least_filled_fraction', 1.0), round(coverage, 5))
-        if coverage < MODEL_COVERAGE_TOL:
-            ctx.violation('build_ellipse_model:coverage', f'only {100 * coverage:.1f} % of the pixels inside the fitted '
-                          f'region (ellipses entirely inside the {p["ny"]}x{p["nx"]} frame) are filled by the model',
-                          describe_real(p))
-            continue
-        med, p90 = float(np.median(rel)), float(np.percentile(rel, 90))
-        ctx.support('model_image', int(rel.size))
-        d['worst_median_rel_residual'] = max(d.get('worst_median_rel_residual', 0.0), round(med, 5))
-        d['worst_p90_rel_residual'] = max(d.get('worst_p90_rel_residual', 0.0), round(p90, 5))
-        if med > MODEL_MEDIAN_TOL or p90 > MODEL_P90_TOL:
-            ctx.violation('build_ellipse_model:residual', f'relative residual of the model image inside the fitted '
-                          f'region: median {med:.3f} (tol {MODEL_MEDIAN_TOL}), 90th percentile {p90:.3f} '
-                          f'(tol {MODEL_P90_TOL})', describe_real(p))
+        if rel.size:
+            ctx.support('model_image', int(rel.size))
+            d['worst_median_rel_residual'] = max(d.get('worst_median_rel_residual', 0.0), round(float(np.median(rel)), 5))
+            d['worst_p90_rel_residual'] = max(d.get('worst_p90_rel_residual', 0.0), round(float(np.percentile(rel, 90)), 5))
+            d['worst_pixel_over_bound'] = max(d.get('worst_pixel_over_bound', 0.0), round(model_residual.last_worst, 4))
+        for sig, msg in model_verdict(p, res):
+            ctx.violation(sig, msg, desc)
     _t(ctx, 'model image')
     # ---- polar twins ---------------------------------------------------------------------
     n_pol = 250 if quick else 2500
@@ -1209,7 +1346,7 @@ def run(ctx):
         kind, p, obs = meta[i]
         model = ctx.coq_eval_term(IMPORTS, f'model_out ({terms[i]})') if len(bad) < 40 else None
         if kind in ('sched', 'real'):
-            desc = describe_sched(p) if kind == 'sched' else describe_real(p)
+            desc = describe_sched(p.get('_whole', p)) if kind == 'sched' else describe_real(p)
             detail = {'case': desc, 'impl': {k: obs[k] for k in ('kind', 'isos', 'calls', 'stream')}, 'model': model,
                       'cmd': 'bin/check C20 --replay <this file>'}
             hyp = sched_hyps(p, p['stream'] if kind == 'sched' else obs['stream'])
@@ -1221,7 +1358,7 @@ def run(ctx):
                 ctx.violation('correspondence:C20_Model.fit_image', 'sma schedule / call sequence of fit_image '
                               'differs from the model (property clauses hold on this input)', detail, found_input=False)
         elif kind == 'fix':
-            desc = describe_real(p) if 'law' in p else describe_sched(p)
+            desc = describe_real(p) if 'law' in p else describe_sched(p.get('_whole', p))
             ff = fixflag_oracle(p, obs)
             ctx.violation('Ellipse.fit_image:fix-flags-lost' if ff else 'correspondence:C20_Model.effective_fix',
                           (ff[0] if ff else 'geometry.fix seen by the fitter differs from effective_fix of the model'),
@@ -1267,7 +1404,12 @@ def replay(obj):
     r = obj['replay']
     c = r.get('case', r)
     mode = c.get('mode')
-    if mode == 'polar':
+    if mode == 'synth':
+        obs = run_synth(c)
+        res = model_residual(c, obs)
+        bad = [m for _, m in model_verdict(c, res)] if res is not None else []
+        print('model image:', None if res is None else f'{res[0].size} pixels compared, filled fraction {res[1]:.4f}')
+    elif mode == 'polar':
         sc, vec, _, _ = run_polar(c)
         bad = polar_oracle(c, sc, vec)
         print('scalar:', sc, '\nvector:', vec)
@@ -1283,6 +1425,10 @@ def replay(obj):
         p['fixes'] = tuple(p['fixes'])
         if mode == 'scripted':
             p['stream'] = [tuple(x) for x in p['stream']]
+            if p.get('second'):
+                p['second'] = dict(p['second'])
+                p['second']['stream'] = [tuple(x) for x in p['second']['stream']]
+                p['second']['fixes'] = tuple(p['second']['fixes'])
             obs = run_sched(p)
             stream = p['stream']
         else:
@@ -1297,6 +1443,15 @@ def replay(obj):
             bad.append('fit_image raised ' + str(obs['exc']))
         if obs['kind'] == 0 and not all(p['fixes']):
             bad += fixflag_oracle(p, obs)[:2]
+        if mode == 'scripted' and p.get('second') and 'second' in obs:
+            q, o2 = p['second'], obs['second']
+            print('impl (second call):', {k: o2[k] for k in ('kind', 'isos')})
+            if sched_hyps(q, q['stream']):
+                bad += ['second call: ' + m for _, m in sched_oracle(q, o2)]
+            if o2['kind'] == 4:
+                bad.append('second call raised ' + str(o2['exc']))
+            if o2['kind'] == 0 and not all(q['fixes']):
+                bad += fixflag_oracle(q, o2)[:2]
         if mode == 'real' and obs['kind'] == 0:
             bad += [str(b) for b in fixed_honoured(p, obs)]
             if fixed_at_truth(p):
@@ -1304,12 +1459,7 @@ def replay(obj):
             if len(obs['isos']) >= 12 and p['integr'] == 'bilinear' and not any(eff_fixes(p)):
                 res = model_residual(p, obs)
                 if res is not None:
-                    rel, coverage = res
-                    med, p90 = float(np.median(rel)), float(np.percentile(rel, 90))
-                    print(f'model image: filled fraction {coverage:.3f}, median residual {med:.4f}, p90 {p90:.4f}')
-                    if coverage < MODEL_COVERAGE_TOL:
-                        bad.append(f'model image fills only {coverage:.3f} of the fitted region')
-                    elif med > MODEL_MEDIAN_TOL or p90 > MODEL_P90_TOL:
-                        bad.append(f'model image residual median {med:.3f} p90 {p90:.3f}')
+                    print(f'model image: {res[0].size} pixels compared, filled fraction {res[1]:.4f}')
+                    bad += [m for _, m in model_verdict(p, res)]
     print('property holds on this input' if not bad else f'property FAILS on this input: {bad[:3]}')
     return 0 if not bad else 1
